@@ -10,6 +10,7 @@ CONSTANTS
   Callers = {"c1", "c2", "c3"}
   Outcomes = {"ok", "fail", "cancel", "deadline", "panic"}
   SplitAcquire = FALSE
+  SplitTransition = FALSE
   Defects = {}
 CHECK_DEADLOCK FALSE
 INVARIANTS TypeOK SemInv RingRefines
